@@ -84,6 +84,7 @@ pub struct Tally {
     pub untypeable: u64,
     pub nokey: u64,
     pub inner: u64,
+    pub after_slip: u64,
     pub c: HashMap<&'static str, (u64, u64)>,
 }
 impl Tally {
@@ -99,6 +100,7 @@ impl Tally {
         out.count("lists_judged", self.lists);
         out.count("words_without_single_code_point_keys_skipped", self.nokey);
         out.count("texts_with_punctuation_inside_the_word", self.inner);
+        out.count("words_typed_after_an_aborted_composition_of_waiting_signs", self.after_slip);
         out.count("texts_composed_differently_than_meant", self.untypeable);
         for (k, (ch, nv)) in &self.c {
             out.count(&format!("{k}.checked"), *ch);
@@ -199,6 +201,22 @@ pub fn judge_list(o: &PhonOracle, spec: &CfgSpec, keys: &[FKey], upto: usize, au
 
 /// Type `keys` on an idle context, judging the list after every key; ends with finish.
 /// `mirror` is a context with the same options but suggestions off: what it shows is the composed text.
+/// An earlier composition that was given up (on both contexts); leaves them idle.
+fn run_slip(sess: &Sess, mirror: &Sess, slip: &[Ev]) {
+    for x in [sess, mirror] {
+        for e in slip {
+            let _ = match e {
+                Ev::Key(k, m, s) => x.key(*k, *m, *s).map(|_| ()),
+                Ev::Bs => x.bs(false).map(|_| ()),
+                _ => Ok(()),
+            };
+        }
+        if x.ongoing().unwrap_or(false) {
+            let _ = x.bs(true);
+        }
+    }
+}
+
 pub fn type_and_judge(o: &PhonOracle, sess: &Sess, mirror: &Sess, keys: &[FKey], target: &str, out: &mut Out, t: &mut Tally) {
     let spec = sess.spec;
     let mut composed = String::new();
@@ -255,7 +273,7 @@ pub fn type_and_judge(o: &PhonOracle, sess: &Sess, mirror: &Sess, keys: &[FKey],
     }
 }
 
-pub const FWRAPS: [(&str, &str); 7] = [("\"", "\""), ("(", ":"), ("'", "।"), ("(", ")"), ("", "।"), ("\"'", "'\""), ("", ":")];
+pub const FWRAPS: [(&str, &str); 11] = [("\"", "\""), ("(", ":"), ("'", "।"), ("(", ")"), ("", "।"), ("\"'", "'\""), ("", ":"), ("(\"", "\")"), ("", "\","), ("", "'।"), ("[-'", "'?]")];
 
 impl Prop for C15 {
     fn id(&self) -> &'static str {
@@ -336,7 +354,34 @@ impl Prop for C15 {
             for j in 0..per {
                 let (sess, mirror) = &sessions[(n / env.nshards + j * 3) % sessions.len()];
                 let keys = if sess.spec.has(O_KARORDER) { &tkeys } else { &keys };
-                out.begin_case(|| case_json(&sess.spec, keys, keys.len()));
+                // every third word typed in typewriter order follows an aborted composition: two or three left-standing
+                // signs (each replaces the one that waits), then one backspace, which ends that composition
+                let slip: Vec<Ev> = if sess.spec.has(O_KARORDER) && n % 3 == 0 {
+                    match (rev.get(&'ি'), rev.get(&'ে')) {
+                        (Some(a), Some(b)) => {
+                            let mut v = vec![Ev::Key(a.0, a.1, 0), Ev::Key(b.0, b.1, 0)];
+                            if n % 2 == 0 {
+                                v.push(Ev::Key(a.0, a.1, 0));
+                            }
+                            v.push(Ev::Bs);
+                            v
+                        }
+                        _ => vec![],
+                    }
+                } else {
+                    vec![]
+                };
+                out.begin_case(|| {
+                    let mut c = case_json(&sess.spec, keys, keys.len());
+                    if !slip.is_empty() {
+                        c["aborted_composition_before"] = evs_to_json(&slip);
+                    }
+                    c
+                });
+                if !slip.is_empty() {
+                    t.after_slip += 1;
+                    run_slip(sess, mirror, &slip);
+                }
                 type_and_judge(&o, sess, mirror, keys, w, out, &mut t);
             }
             // punctuation inside the word (the full stop comes from the number pad)
@@ -388,6 +433,9 @@ impl Prop for C15 {
             }
         }
         let mut t = Tally::default();
+        if let Some(slip) = case.get("aborted_composition_before").and_then(evs_from_json) {
+            run_slip(&sess, &mirror, &slip);
+        }
         type_and_judge(&o, &sess, &mirror, &keys, &target, out, &mut t);
         t.flush(out);
     }
